@@ -23,8 +23,9 @@ def job(args):
         mod = importlib.import_module(f"hgxverif.props.{prop.lower()}")
         res = mod.run(ctx)
         res.dedupe()
-        known = [(k.get("rule"), k.get("func")) for k in load_known().get("known", []) if k.get("property") == prop]
-        viol = [o for o in res.obs if o.status == "violation" and (o.rule, o.func) not in known]
+        from hgxverif.report import match_known
+        kn = load_known()
+        viol = [o for o in res.obs if o.status == "violation" and match_known(prop, o, kn) is None]
         unk = sum(1 for o in res.obs if o.status == "unknown")
         return tname, prop, [(o.rule, o.func, o.detail, o.stmt[:90], o.reason[:110]) for o in viol], unk, len(res.obs), None, time.time() - t0
     except AnalysisError as e:
